@@ -34,7 +34,7 @@ TRUSTED_BASE = [
 
 def sh(cmd, cwd=None, env=None, timeout=None, check=True, capture=True):
     p = subprocess.run(cmd, cwd=cwd, env=env, timeout=timeout, shell=isinstance(cmd, str),
-                       stdout=subprocess.PIPE if capture else None, stderr=subprocess.STDOUT if capture else None, text=True)
+                       stdout=subprocess.PIPE if capture else None, stderr=subprocess.STDOUT if capture else None, text=True, errors="replace")
     if check and p.returncode != 0:
         raise RuntimeError("command failed (%s): %s\n%s" % (p.returncode, cmd, (p.stdout or "")[-4000:]))
     return p
